@@ -17,6 +17,9 @@ from pfv import terms as tm
 from pfv import fc, smt
 from pfv.framework import Obligation, Verdict, real_exec
 from pfv.proxies import explore, SReal, SInt
+import functools as _ft
+_explore_raw = explore
+explore = _ft.partial(_explore_raw, enforce_bounds=True)     # shim range assumptions (slices / indices) must be provable on every returning path
 
 PROP = 'C12'
 F_ = 'pfhedge.nn.functional.'
